@@ -868,6 +868,8 @@ class Interp:
                 return obj.fields[name]
             if name == "__dict__":
                 return obj.fields
+            if name == "__class__" and isinstance(obj.cls, ClassRef):
+                return obj.cls
             hook = self.ex.getattr_hooks.get(obj.clsname())
             if hook:
                 r = hook(self, obj, name)
@@ -896,6 +898,8 @@ class Interp:
         if isinstance(obj, ModRef):
             return self.resolve_dotted(obj.dotted + "." + name)
         if isinstance(obj, ClassRef):
+            if name == "__name__":
+                return obj.name
             m = self.find_method(obj, name)
             if m is not None:
                 return m
